@@ -79,6 +79,7 @@ Proof.
     + rewrite get_put_same, Hg. simpl. rewrite Ht. reflexivity.
     + rewrite get_put_other by auto. reflexivity.
   - intros j m _ _. rewrite He. reflexivity.
+  - intros j m Hj _. rewrite He, (ents_beyond D f j W Hj). reflexivity.
   - destruct (dir_kept_refl D f W) as (p & es & es' & m & m' & G1 & G2 & G3).
     exists p, es, es', m, m'. repeat split; auto; try apply G3.
     rewrite get_put_other by auto. exact G2.
@@ -126,6 +127,7 @@ Proof.
   - intros i Hi. left. apply H4. exact Hi.
   - intros i Hi. unfold f1. rewrite get_alloc_other by lia. reflexivity.
   - intros j m _ _. rewrite H3. reflexivity.
+  - intros j m Hj _. rewrite H3, (ents_beyond D f j W Hj). reflexivity.
   - destruct (dir_kept_refl D f W) as (p & es & es' & m & m' & G1 & G2 & G3).
     exists p, es, es', m, m'. repeat split; auto; try apply G3.
     unfold f1. rewrite get_alloc_other; auto.
@@ -210,6 +212,7 @@ Proof.
   - intros j n Hj HTn. destruct (N.eq_dec j dd) as [->|Hne].
     + rewrite Hes, Hes0. apply HT. exact HTn.
     + rewrite Heo by auto. reflexivity.
+  - intros j n Hj _. rewrite Heo by lia. rewrite (ents_beyond D f j W Hj). reflexivity.
   - destruct (dir_kept_refl D f W) as (p0 & es0 & es0' & m0 & m0' & G1 & G2 & G3).
     destruct (N.eq_dec dd D) as [->|Hne].
     + exists p, es, es', m, (with_mtime m now_mark).
@@ -274,6 +277,7 @@ Proof.
     + rewrite get_put_same, Hg. reflexivity.
     + rewrite get_put_other by auto. reflexivity.
   - intros j n _ _. rewrite He. reflexivity.
+  - intros j n Hj _. rewrite He, (ents_beyond D f j W Hj). reflexivity.
   - destruct (dir_kept_refl D f W) as (p & es & es' & m0 & m0' & G1 & G2 & G3).
     exists p, es, es', m0, m0'. repeat split; auto; try apply G3.
     unfold f'. rewrite get_put_other by auto. exact G2.
